@@ -409,6 +409,8 @@ pub struct Vm {
   pub call_log: Ghost<Seq<Dispatched>>,
   /// the placeholder captures of functions without captures
   pub capture_stub: CapturesRef,
+  /// ghost (ncall unit): natives whose body ran during this handler, with the arguments they saw
+  pub ran: Ghost<Seq<(NativeRef, Seq<Value>)>>,
 }
 
 pub uninterp spec fn code_u8(ip: int) -> u8;
@@ -499,8 +501,8 @@ impl Vm {
   /// make `error` the fiber's in-flight error and start unwinding
   #[verifier::external_body]
   pub fn set_error(&mut self, error: InstRef) -> (r: ExecutionSignal)
-    ensures r == ExecutionSignal::RuntimeError, final(self).fiber.error == Some(error), final(self).raised == old(self).raised, final(self).ip == old(self).ip,
-            final(self).fiber.handlers == old(self).fiber.handlers, final(self).constants == old(self).constants, final(self).builtin == old(self).builtin,
+    ensures r == ExecutionSignal::RuntimeError, final(self).fiber.error == Some(error), final(self).raised == old(self).raised, final(self).ip == old(self).ip, final(self).ran == old(self).ran,
+            final(self).fiber.handlers == old(self).fiber.handlers, final(self).fiber.frames == old(self).fiber.frames, final(self).constants == old(self).constants, final(self).builtin == old(self).builtin,
             final(self).cache == old(self).cache, final(self).heap == old(self).heap, final(self).called == old(self).called, final(self).call_log == old(self).call_log, final(self).capture_stub == old(self).capture_stub
   { ExecutionSignal::RuntimeError }
 
